@@ -14,9 +14,9 @@ EXTENDS Kernel, Sequences
 CheckedEntries == {"registry_register", "registry_register_sigaction", "low_level_register",
                    "flag_register", "flag_register_usize", "flag_conditional_shutdown",
                    "flag_conditional_default", "pipe_register", "pipe_register_raw",
-                   "signals_new", "add_signal"}
+                   "signals_new", "signals_new_after_valid", "add_signal"}
 UncheckedEntries == {"registry_register_signal_unchecked", "registry_register_unchecked"}
-IteratorEntries == {"signals_new", "add_signal"}
+IteratorEntries == {"signals_new", "signals_new_after_valid", "add_signal"}
 
 \* Signals the library knows by name (needed by register_conditional_default only).
 NamedSigs == (1..31) \ {16, 30}
